@@ -90,7 +90,13 @@ public:
 
     auto ret = UNSAFE_unverified();
     if (ret != nullptr) {
-      size_t bytes = sizeof(T) * count;
+      // count is in elements of the pointee (void and function pointees are
+      // treated as bytes)
+      using T_El = std::conditional_t<std::is_void_v<T_Pointed> ||
+                                        std::is_function_v<T_Pointed>,
+                                      char,
+                                      T_Pointed>;
+      size_t bytes = sizeof(T_El) * count;
       detail::check_range_doesnt_cross_app_sbx_boundary<T_Sbx>(ret, bytes);
     }
     return ret;
